@@ -19,6 +19,7 @@ type famSpec struct {
 	rule           string
 	assume         []string
 	lazyT          bool
+	flags          []string // as-built flags this family knows about
 }
 
 // runFam is the shared body of the generator-source checks: TLC enumerates the
@@ -36,7 +37,7 @@ func runFam(c *vf.Check, f famSpec) {
 		"TapeLen":   tier(c, f.tapeQ, f.tapeT),
 		"MaxCalls":  itoa(calls),
 		"Budget":    itoa(budget),
-		"OpenFlags": flagSet(c, "KF04", "KF16"),
+		"OpenFlags": flagSet(c, append([]string{"KF04", "KF16"}, f.flags...)...),
 		"Lazy":      tier(c, "FALSE", map[bool]string{true: "TRUE", false: "FALSE"}[f.lazyT]),
 	}
 	cases, res := collectSrcCases(c, "MC_Src", "MC_Src.cfg", consts, tier(c, 10*time.Minute, 120*time.Minute))
@@ -61,7 +62,11 @@ func runFam(c *vf.Check, f famSpec) {
 	}
 	run := runSrcFamilyCalls(c, cases, srcOpts{Deleg: f.deleg, Budget: budget})
 	nfail := noteCompileFailures(c, run)
-	st := judgeSrc(c, f.name, cases, run, "KF04", f.keys, renderCo)
+	flag := "KF04"
+	if len(f.flags) > 0 {
+		flag = f.flags[0]
+	}
+	st := judgeSrc(c, f.name, cases, run, flag, f.keys, renderCo)
 	c.Note("%s: programs=%d (compile/build failures %d) cases=%d compared=%d pass=%d known=%d violations=%d; spec=native on all %d cases",
 		f.name, len(run.Progs), nfail, len(cases), st.Compared, st.Pass, st.Known, st.Viol, len(cases))
 	if len(cases) > 1 {
